@@ -3,6 +3,8 @@ package c07
 
 import (
 	"fmt"
+	"os"
+	"strconv"
 	"sort"
 	"strings"
 	"sync"
@@ -35,13 +37,14 @@ type Fault struct {
 }
 
 type Case struct {
+	Multi   bool     `json:"multi,omitempty"` // multi-key commands in the mix: the history is checked over the joint keys
 	Nodes   int      `json:"nodes"`
 	Clients []Client `json:"clients"`
 	Faults  []Fault  `json:"faults"`
 	PaceUs  int      `json:"pace_us"` // pause between a client's operations
 }
 
-var keys = []string{"s0", "s1", "l0", "t0", "h0"}
+var keys = []string{"s0", "s1", "l0", "t0", "h0", "a", "b", "l1", "t1"}
 
 func genOp(t *rapid.T, client, seq int) kit.Cmd {
 	uniq := fmt.Sprintf("c%d-%d", client, seq)
@@ -77,8 +80,50 @@ func genOp(t *rapid.T, client, seq int) kit.Cmd {
 	}
 }
 
+// genMultiOp: multi-key commands and single-key commands on the same keys (strings a b, lists l0 l1, sets t0 t1)
+func genMultiOp(t *rapid.T, client, seq int) kit.Cmd {
+	uniq := fmt.Sprintf("c%d-%d", client, seq)
+	switch gen.Weighted(t, "mop", []int{4, 3, 3, 3, 3, 3, 3, 2, 2, 2, 2}) {
+	case 0:
+		return kit.MkCmd("MSET", "a", uniq, "b", uniq)
+	case 1:
+		return kit.MkCmd("RENAME", gen.Pick(t, "rs", "a", "b"), gen.Pick(t, "rd", "a", "b"))
+	case 2:
+		return kit.MkCmd("LMOVE", gen.Pick(t, "ls", "l0", "l1"), gen.Pick(t, "ld", "l0", "l1"), "LEFT", "RIGHT")
+	case 3:
+		return kit.MkCmd("SMOVE", gen.Pick(t, "ss", "t0", "t1"), gen.Pick(t, "sd", "t0", "t1"), gen.Pick(t, "sm", "x", "y"))
+	case 4:
+		return kit.MkCmd("SET", gen.Pick(t, "sk", "a", "b"), uniq)
+	case 5:
+		return kit.MkCmd("GET", gen.Pick(t, "gk", "a", "b"))
+	case 6:
+		return kit.MkCmd("LPUSH", gen.Pick(t, "pk", "l0", "l1"), uniq)
+	case 7:
+		return kit.MkCmd("LRANGE", gen.Pick(t, "lk", "l0", "l1"), "0", "-1")
+	case 8:
+		return kit.MkCmd("SADD", gen.Pick(t, "ak", "t0", "t1"), gen.Pick(t, "am", "x", "y"))
+	case 9:
+		return kit.MkCmd("SMEMBERS", gen.Pick(t, "mk", "t0", "t1"))
+	default:
+		return kit.MkCmd("SUNIONSTORE", "t1", "t0", "t1")
+	}
+}
+
 func genCase(t *rapid.T) Case {
 	c := Case{Nodes: 3, PaceUs: rapid.SampledFrom([]int{0, 200, 2000}).Draw(t, "pace")}
+	if rapid.IntRange(0, 3).Draw(t, "multi") == 0 {
+		c.Multi = true
+		nc := rapid.IntRange(2, 4).Draw(t, "mclients")
+		per := rapid.SampledFrom([]int{6, 10, 14}).Draw(t, "mper")
+		for i := 0; i < nc; i++ {
+			cl := Client{Node: 1 + rapid.IntRange(0, 2).Draw(t, "node")}
+			for j := 0; j < per; j++ {
+				cl.Ops = append(cl.Ops, genMultiOp(t, i, j))
+			}
+			c.Clients = append(c.Clients, cl)
+		}
+		return c
+	}
 	if rapid.IntRange(0, 5).Draw(t, "single") == 0 {
 		c.Nodes = 1
 	}
@@ -111,7 +156,22 @@ func genCase(t *rapid.T) Case {
 		case 1:
 			c.Faults = append(c.Faults, Fault{Kind: "kill-restart", Target: 1 + rapid.IntRange(0, 2).Draw(t, "target"), AtMs: rapid.IntRange(0, 60).Draw(t, "at"), DurMs: rapid.SampledFrom([]int{100, 1500}).Draw(t, "dur")})
 		case 2:
-			c.Faults = append(c.Faults, Fault{Kind: "pause", Target: 1 + rapid.IntRange(0, 2).Draw(t, "target"), AtMs: rapid.IntRange(0, 60).Draw(t, "at"), DurMs: rapid.SampledFrom([]int{300, 3500}).Draw(t, "dur")})
+			f := Fault{Kind: "pause", Target: 1 + rapid.IntRange(0, 2).Draw(t, "target"), AtMs: rapid.IntRange(0, 60).Draw(t, "at"), DurMs: rapid.SampledFrom([]int{300, 3500, 6000}).Draw(t, "dur")}
+			c.Faults = append(c.Faults, f)
+			if f.DurMs >= 3500 {
+				// a long pause deposes the node if it was the leader: keep the load running across the whole
+				// pause, with half of the clients talking to the paused node (their requests are served the
+				// moment it resumes, possibly before it has learnt that it is no longer the leader)
+				for i := range c.Clients {
+					if i%2 == 0 {
+						c.Clients[i].Node = f.Target
+					}
+					for len(c.Clients[i].Ops) < 160 {
+						c.Clients[i].Ops = append(c.Clients[i].Ops, genOp(t, i, len(c.Clients[i].Ops)))
+					}
+				}
+				c.PaceUs = 50000
+			}
 		}
 	}
 	return c
@@ -119,8 +179,16 @@ func genCase(t *rapid.T) Case {
 
 var clusters = map[int]*srv.Cluster{}
 
-func clusterFor(n int) (*srv.Cluster, error) {
-	c := clusters[n]
+// clusterFor returns a running cluster of n nodes. oneCPU: the node processes run with GOMAXPROCS=1
+// (a legitimate deployment; it changes which goroutine gets to run first after a stall).
+func clusterFor(n int, oneCPU bool) (*srv.Cluster, error) {
+	key := n
+	var env []string
+	if oneCPU {
+		key = n + 100
+		env = []string{"GOMAXPROCS=1"}
+	}
+	c := clusters[key]
 	ok := c != nil
 	if ok {
 		for i := 1; i <= n; i++ {
@@ -135,11 +203,11 @@ func clusterFor(n int) (*srv.Cluster, error) {
 	if c != nil {
 		c.Stop()
 	}
-	nc, err := srv.StartCluster(srv.ClusterOptions{Size: n})
+	nc, err := srv.StartCluster(srv.ClusterOptions{Size: n, Env: env})
 	if err != nil {
 		return nil, err
 	}
-	clusters[n] = nc
+	clusters[key] = nc
 	return nc, nil
 }
 
@@ -207,7 +275,8 @@ func dumpNode(cl *srv.Cluster, node int) (string, error) {
 		return "", fmt.Errorf("barrier write: %v", err)
 	}
 	var sb strings.Builder
-	reads := map[string][]string{"s0": {"GET"}, "s1": {"GET"}, "l0": {"LRANGE", "0", "-1"}, "t0": {"SMEMBERS"}, "h0": {"HGETALL"}}
+	reads := map[string][]string{"s0": {"GET"}, "s1": {"GET"}, "l0": {"LRANGE", "0", "-1"}, "t0": {"SMEMBERS"}, "h0": {"HGETALL"},
+		"a": {"GET"}, "b": {"GET"}, "l1": {"LRANGE", "0", "-1"}, "t1": {"SMEMBERS"}}
 	for _, k := range keys {
 		args := append([]string{reads[k][0], k}, reads[k][1:]...)
 		v, err := cn.DoS(8*time.Second, args...)
@@ -215,6 +284,9 @@ func dumpNode(cl *srv.Cluster, node int) (string, error) {
 			return "", err
 		}
 		s := v.String()
+		if v.Kind == respx.Error {
+			s = "error" // a key may hold another type after RENAME: the type is part of the dump through KEYS/TYPE below
+		}
 		if (args[0] == "SMEMBERS" || args[0] == "HGETALL") && v.Kind == respx.Array {
 			step := 1
 			if args[0] == "HGETALL" {
@@ -249,16 +321,29 @@ func dumpNode(cl *srv.Cluster, node int) (string, error) {
 }
 
 func exec(c Case) kit.Outcome {
-	cl, err := clusterFor(c.Nodes)
+	oneCPU := false
+	for _, f := range c.Faults {
+		if f.Kind == "pause" && f.DurMs >= 3500 {
+			oneCPU = true
+		}
+	}
+	ckey := c.Nodes
+	if oneCPU {
+		ckey += 100
+	}
+	cl, err := clusterFor(c.Nodes, oneCPU)
 	if err != nil {
 		return kit.Outcome{Fail: "infrastructure: " + err.Error()}
 	}
 	if err := wipe(cl, 1); err != nil {
 		cl.Stop()
-		delete(clusters, c.Nodes)
+		delete(clusters, ckey)
 		return kit.Outcome{Inconclusive: true, Labels: []string{"wipe-failed:" + err.Error()}}
 	}
 	o := kit.Outcome{Labels: []string{fmt.Sprintf("nodes:%d", c.Nodes)}}
+	if c.Multi {
+		o.Labels = append(o.Labels, "multi-key")
+	}
 	for _, f := range c.Faults {
 		o.Labels = append(o.Labels, "fault:"+f.Kind)
 	}
@@ -283,7 +368,11 @@ func exec(c Case) kit.Outcome {
 				call := time.Since(t0).Nanoseconds()
 				v, ok := cc.do(cmd)
 				ret := time.Since(t0).Nanoseconds()
-				op := porcupine.Operation{ClientId: ci, Input: lin.In{Cmd: cmd, Part: string(cmd[1])}, Call: call, Output: lin.Out{Val: v}, Return: ret}
+				part := string(cmd[1])
+				if c.Multi {
+					part = "joint"
+				}
+				op := porcupine.Operation{ClientId: ci, Input: lin.In{Cmd: cmd, Part: part}, Call: call, Output: lin.Out{Val: v}, Return: ret}
 				if !ok {
 					// indeterminate: may take effect at any later time, or never
 					op.Output = lin.Out{Unknown: true}
@@ -317,7 +406,43 @@ func exec(c Case) kit.Outcome {
 			case "pause":
 				cl.Signal(f.Target, syscall.SIGSTOP)
 				time.Sleep(time.Duration(f.DurMs) * time.Millisecond)
+				// queue reads on the frozen node over fresh connections: they are the first thing it
+				// serves when it resumes, before it may have learnt what happened meanwhile
+				type qr struct {
+					cn   *srv.Conn
+					cmd  kit.Cmd
+					call int64
+				}
+				var queued []qr
+				if f.DurMs >= 3500 {
+					for i := 0; i < 12; i++ {
+						cn, err := cl.Dial(f.Target)
+						if err != nil {
+							continue
+						}
+						cmd := kit.MkCmd("GET", []string{"s0", "s1"}[i%2])
+						call := time.Since(t0).Nanoseconds()
+						if cn.Write(respx.EncodeCommand(cmd.Bytes()), time.Second) != nil {
+							cn.Close()
+							continue
+						}
+						queued = append(queued, qr{cn, cmd, call})
+					}
+				}
 				cl.Signal(f.Target, syscall.SIGCONT)
+				for i, q := range queued {
+					v, err := q.cn.Read(opTimeout)
+					ret := time.Since(t0).Nanoseconds()
+					op := porcupine.Operation{ClientId: 1000 + i, Input: lin.In{Cmd: q.cmd, Part: string(q.cmd[1])}, Call: q.call, Output: lin.Out{Val: v}, Return: ret}
+					if err != nil {
+						op.Output = lin.Out{Unknown: true}
+						op.Return = 1 << 61
+					}
+					q.cn.Close()
+					mu.Lock()
+					hist = append(hist, op)
+					mu.Unlock()
+				}
 			}
 		}(f)
 	}
@@ -329,7 +454,7 @@ func exec(c Case) kit.Outcome {
 		if !cl.Alive(i) {
 			rep := cl.CrashReport(i)
 			cl.Stop()
-			delete(clusters, c.Nodes)
+			delete(clusters, ckey)
 			o.Fail = fmt.Sprintf("node %d is down after the workload: %.600s", i, rep)
 			return o
 		}
@@ -337,7 +462,7 @@ func exec(c Case) kit.Outcome {
 	if err := cl.WaitServing(30*time.Second, nil); err != nil {
 		logs := cl.Logs(500)
 		cl.Stop()
-		delete(clusters, c.Nodes)
+		delete(clusters, ckey)
 		// not serving again is liveness: reported as inconclusive unless a node died with a panic
 		if strings.Contains(logs, "panic:") || strings.Contains(logs, "fatal error:") {
 			o.Fail = "after the faults were healed the cluster does not serve and a node reports a crash: " + err.Error() + "\n" + firstN(logs, 1200)
@@ -368,12 +493,19 @@ func exec(c Case) kit.Outcome {
 	cn, err := cl.Dial(1)
 	if err == nil {
 		reads := [][]string{{"GET", "s0"}, {"GET", "s1"}, {"LRANGE", "l0", "0", "-1"}, {"SMEMBERS", "t0"}, {"HGETALL", "h0"}}
+		if c.Multi {
+			reads = [][]string{{"GET", "a"}, {"GET", "b"}, {"LRANGE", "l0", "0", "-1"}, {"LRANGE", "l1", "0", "-1"}, {"SMEMBERS", "t0"}, {"SMEMBERS", "t1"}}
+		}
 		for i, r := range reads {
 			v, err := cn.DoS(8*time.Second, r...)
 			if err != nil {
 				break
 			}
-			hist = append(hist, porcupine.Operation{ClientId: len(c.Clients), Input: lin.In{Cmd: kit.MkCmd(r...), Part: r[1]}, Call: 1<<60 + int64(2*i), Output: lin.Out{Val: v}, Return: 1<<60 + int64(2*i+1)})
+			part := r[1]
+			if c.Multi {
+				part = "joint"
+			}
+			hist = append(hist, porcupine.Operation{ClientId: len(c.Clients), Input: lin.In{Cmd: kit.MkCmd(r...), Part: part}, Call: 1<<60 + int64(2*i), Output: lin.Out{Val: v}, Return: 1<<60 + int64(2*i+1)})
 		}
 		cn.Close()
 	}
@@ -419,14 +551,52 @@ func firstN(s string, n int) string {
 
 func TestWorkloads(t *testing.T) {
 	defer stopAll()
-	kit.Check(t, kit.Spec[Case]{Sub: "load", Quick: 3, Thorough: 40, Gen: genCase, Exec: exec, NoShrink: !kit.Thorough()})
+	kit.Check(t, kit.Spec[Case]{Sub: "load", Quick: 6, Thorough: 40, Gen: genCase, Exec: exec, NoShrink: !kit.Thorough()})
+}
+
+// genPauseEach: every node is frozen in turn for longer than the election time-out while clients on all
+// nodes keep reading and writing two keys: one of the three is the leader when its turn comes, so a
+// leader that has been deposed without noticing is reached deterministically (reads are queued on the
+// frozen node and served the moment it resumes).
+func genPauseEach(t *rapid.T) Case {
+	c := Case{Nodes: 3, PaceUs: 50000}
+	order := rapid.Permutation([]int{1, 2, 3}).Draw(t, "order")
+	for i, n := range order {
+		c.Faults = append(c.Faults, Fault{Kind: "pause", Target: n, AtMs: 200 + 9000*i, DurMs: rapid.SampledFrom([]int{5500, 6500}).Draw(t, "dur")})
+	}
+	for ci := 0; ci < 6; ci++ {
+		cl := Client{Node: 1 + ci%3}
+		for j := 0; j < 520; j++ {
+			k := gen.Pick(t, "k", "s0", "s1")
+			if rapid.Bool().Draw(t, "w") {
+				cl.Ops = append(cl.Ops, kit.MkCmd("SET", k, fmt.Sprintf("c%d-%d", ci, j)))
+			} else {
+				cl.Ops = append(cl.Ops, kit.MkCmd("GET", k))
+			}
+		}
+		c.Clients = append(c.Clients, cl)
+	}
+	return c
+}
+
+func TestPauseEachNode(t *testing.T) {
+	defer stopAll()
+	q := 0
+	if kit.Shard() == 0 {
+		q = 1 // one such case per quick run (about 45 s)
+	}
+	kit.Check(t, kit.Spec[Case]{Sub: "load", Quick: q, Thorough: 2, Gen: genPauseEach, Exec: exec, NoShrink: true})
 }
 
 func TestReplay(t *testing.T) {
 	defer stopAll()
 	kit.Replay[Case](t, map[string]func(kit.RawCase) kit.Outcome{"load": kit.ReplaySub(func(c Case) kit.Outcome {
 		var o kit.Outcome
-		for i := 0; i < 5; i++ {
+		iters := 5
+		if v, err := strconv.Atoi(os.Getenv("VERIF_REPLAY_ITERS")); err == nil && v > 0 {
+			iters = v
+		}
+		for i := 0; i < iters; i++ {
 			if o = exec(c); o.Fail != "" {
 				return o
 			}
